@@ -41,9 +41,12 @@ type Case struct {
 	Strict  bool     `json:"strict"`
 	OnErr   bool     `json:"custom_on_err"`
 	Front   string   `json:"front"` // validator | handler-serve | handler-middleware
+	// Prelude: an exchange served by the same Validator / ValidationHandler before the one that is
+	// judged ("" = none). Whatever it was, the judged exchange must go as it goes on a fresh instance.
+	Prelude string `json:"prelude,omitempty"` // head | invalid | unroutable | bad-response | good-response
 }
 
-const specJSON = `{"openapi":"3.0.3","info":{"title":"t","version":"1"},"paths":{"/r":{"post":{
+const specJSON = `{"openapi":"3.0.3","info":{"title":"t","version":"1"},"paths":{"/r":{"head":{"responses":{"200":{"description":"ok"}}},"post":{
  "parameters":[{"name":"q","in":"query","required":true,"schema":{"type":"integer"}}],
  "responses":{
   "200":{"description":"ok","content":{"application/json":{"schema":{"type":"object","required":["ok"],"properties":{"ok":{"type":"boolean"},"m":{"type":"string"}},"additionalProperties":false}}}},
@@ -98,6 +101,30 @@ func (p plainWriter) Header() http.Header         { return p.w.Header() }
 func (p plainWriter) Write(b []byte) (int, error) { return p.w.Write(b) }
 func (p plainWriter) WriteHeader(c int)           { p.w.WriteHeader(c) }
 
+// prelude serves one earlier exchange through mw (built over the same Validator / ValidationHandler).
+func prelude(kind string, wrap func(http.Handler) http.Handler) {
+	if kind == "" {
+		return
+	}
+	req := request("valid")
+	body := `{"ok":true}`
+	switch kind {
+	case "head":
+		req = httptest.NewRequest("HEAD", "http://localhost/r", nil)
+		body = ""
+	case "invalid", "unroutable":
+		req = request(kind)
+	case "bad-response":
+		body = `{"ok":"no","extra":1}`
+	}
+	hd := http.HandlerFunc(func(w http.ResponseWriter, r *http.Request) {
+		w.Header().Set("Content-Type", "application/json")
+		w.WriteHeader(200)
+		_, _ = w.Write([]byte(body))
+	})
+	wrap(hd).ServeHTTP(httptest.NewRecorder(), req)
+}
+
 func run(script []Action, w http.ResponseWriter) {
 	for _, a := range script {
 		switch a.Op {
@@ -146,6 +173,9 @@ func check(c Case) (o h.Outcome) {
 		if err := vh.Load(); err != nil {
 			panic("harness: ValidationHandler.Load: " + err.Error())
 		}
+		if !o.Guarded("ValidationHandler(prelude)", func() { prelude(c.Prelude, vh.Middleware) }) {
+			return
+		}
 		if !o.Guarded("ValidationHandler", func() {
 			if c.Front == "handler-serve" {
 				vh.ServeHTTP(client, request(c.Request))
@@ -185,6 +215,10 @@ func check(c Case) (o h.Outcome) {
 		}))
 	}
 	v := openapi3filter.NewValidator(router, opts...)
+	if !o.Guarded("Middleware.ServeHTTP(prelude)", func() { prelude(c.Prelude, v.Middleware) }) {
+		return
+	}
+	errCalls = nil
 	if !o.Guarded("Middleware.ServeHTTP", func() { v.Middleware(handler).ServeHTTP(client, request(c.Request)) }) {
 		return
 	}
@@ -346,6 +380,17 @@ func enumerate(shard, nshards int, yield func(Case)) {
 			}
 		}
 	}
+	for _, s := range scripts[:120] {
+		for _, pre := range []string{"head", "invalid", "unroutable", "bad-response", "good-response"} {
+			for _, rq := range []string{"valid", "invalid"} {
+				for _, strict := range []bool{false, true} {
+					for _, front := range []string{"validator", "handler-serve"} {
+						emit(Case{Request: rq, Script: s, Strict: strict, Front: front, Prelude: pre})
+					}
+				}
+			}
+		}
+	}
 	for _, s := range scripts[:200] {
 		for _, rq := range []string{"unroutable", "invalid"} {
 			for _, strict := range []bool{false, true} {
@@ -376,7 +421,8 @@ func gen(t *rapid.T) Case {
 		s = append(s, a)
 	}
 	return Case{Request: rapid.SampledFrom([]string{"valid", "valid", "valid", "invalid", "unroutable"}).Draw(t, "request"), Script: s,
-		Strict: rapid.Bool().Draw(t, "strict"), OnErr: rapid.Bool().Draw(t, "onerr"), Front: rapid.SampledFrom([]string{"validator", "validator", "validator", "handler-serve", "handler-middleware"}).Draw(t, "front")}
+		Strict: rapid.Bool().Draw(t, "strict"), OnErr: rapid.Bool().Draw(t, "onerr"), Front: rapid.SampledFrom([]string{"validator", "validator", "validator", "handler-serve", "handler-middleware"}).Draw(t, "front"),
+		Prelude: rapid.SampledFrom([]string{"", "", "head", "invalid", "unroutable", "bad-response", "good-response"}).Draw(t, "prelude")}
 }
 
 var _ = jv.Canon
